@@ -1,32 +1,49 @@
 """C19 -- sleep, jitter, work hours and kill date (c2/cfg/workhours.go, (*Session).wait / listen in
 c2/session.go, connectContextInner in c2/c2.go, util/rand.go)."""
-import os, sys
+import os, re, sys
 
 _VERIF = os.path.dirname(os.path.dirname(os.path.dirname(os.path.abspath(__file__))))
 _REPO = os.environ.get("VERIF_REPO", "/repo")
 
 
-def _derive(src, dst, subs, must):
-    """Derived overlay copy (DESIGN 3.4): the CURRENT /repo file with the named call patterns
-    textually redirected to hook functions defined in the overlay shims (harness/overlay/c2--c19.go,
-    c2__cfg--c19.go).  Nothing else changes (line numbers are kept).  A pattern that is no longer
-    present (or an anchor function that disappeared) is a machinery error: exit 2."""
+def _fail(msg):
+    """A derived copy can no longer be made.  vlib turns a non-zero exit of extra_replace into a
+    broken-correspondence violation (a change of the anchored code that the injection cannot follow
+    must not pass silently)."""
+    print("C19: MACHINERY: " + msg + " -- adapt tools/propcfg/c19.py", file=sys.stderr)
+    sys.exit(2)
+
+
+# every clock read except the socket deadline computations `time.Now().Add(...)`, which must stay
+# on the real clock (the exchanges are real)
+_CLOCK = re.compile(r"time\.Now\(\)(?!\.Add\()")
+
+
+def _derive(src, dst, subs, must, clock_in=()):
+    """Derived overlay copy (DESIGN 3.4): the CURRENT /repo file with
+      * EVERY `time.Now()` that is not a deadline computation redirected to verifC19Clock()
+        (not a specific expression: a rewritten gate such as `time.Now().After(k)` still follows), and
+      * the named call patterns redirected to hook functions of the overlay shims.
+    Nothing else changes (line numbers are kept).  `clock_in` names (start anchor, end anchor)
+    regions that must contain at least one redirected clock read afterwards."""
     try:
         text = open(src).read()
     except OSError as e:
-        print("C19: cannot read %s: %s" % (src, e), file=sys.stderr)
-        sys.exit(2)
+        _fail("cannot read %s: %s" % (src, e))
+    text = _CLOCK.sub("verifC19Clock()", text)
     for pat, rep, least in subs:
         n = text.count(pat)
         if n < least:
-            print("C19: MACHINERY: pattern %r found %d time(s) in %s, expected at least %d; the clock / random-draw / timer "
-                  "injection can no longer be derived -- adapt tools/propcfg/c19.py" % (pat, n, src, least), file=sys.stderr)
-            sys.exit(2)
+            _fail("pattern %r found %d time(s) in %s, expected at least %d; the random-draw / timer injection can no longer be derived" % (pat, n, src, least))
         text = text.replace(pat, rep)
     for m in must:
         if m not in text:
-            print("C19: MACHINERY: anchor %r not found in %s" % (m, src), file=sys.stderr)
-            sys.exit(2)
+            _fail("anchor %r not found in %s" % (m, src))
+    for a, b in clock_in:
+        i = text.find(a)
+        j = text.find(b, i + 1) if i >= 0 else -1
+        if i < 0 or j < 0 or "verifC19Clock()" not in text[i:j]:
+            _fail("no clock read left between %r and %r in %s: the kill-date / work-hours clock can no longer be injected" % (a, b, src))
     os.makedirs(os.path.dirname(dst), exist_ok=True)
     try:
         if open(dst).read() == text:
@@ -41,28 +58,28 @@ def _derive(src, dst, subs, must):
 def _extra_replace():
     d = os.path.join(_VERIF, "build", "c19", "derived")
     out = {}
-    # WorkHours.Work: the one clock read
+    # WorkHours.Work: the clock read
     src = os.path.join(_REPO, "c2/cfg/workhours.go")
     dst = os.path.join(d, "c2__cfg__workhours.go")
-    _derive(src, dst, [("time.Now()", "verifC19Now()", 1)], ["func (w WorkHours) Work() time.Duration {"])
+    _derive(src, dst, [], ["func (w WorkHours) Work() time.Duration {"],
+            [("func (w WorkHours) Work() time.Duration {", "func (w WorkHours) MarshalStream(")])
     out[src] = dst
     # (*Session).wait: kill-date clock, the three random draws of the jitter, the timer
     src = os.path.join(_REPO, "c2/session.go")
     dst = os.path.join(d, "c2__session.go")
     _derive(src, dst, [
-        ("time.Now().After(s.kill)", "verifC19Now(s).After(s.kill)", 1),
         ("util.FastRandN(", "verifC19RandN(", 2),
         ("util.Rand.Int63n(", "verifC19Int63n(", 1),
         ("s.tick.Reset(w)", "verifC19Reset(s, w)", 2),
-    ], ["func (s *Session) wait() {", "func (s *Session) listen() {"])
+    ], ["func (s *Session) wait() {", "func (s *Session) listen() {"],
+        [("func (s *Session) wait() {", "func (s *Session) Wake() {")])
     out[src] = dst
     # connectContextInner: kill-date clock and the work-hours sleep before the first connect
     src = os.path.join(_REPO, "c2/c2.go")
     dst = os.path.join(d, "c2__c2.go")
     _derive(src, dst, [
-        ("time.Now().After(s.kill)", "verifC19Now(s).After(s.kill)", 1),
         ("time.Sleep(v)", "verifC19Sleep(s, v)", 1),
-    ], ["func connectContextInner("])
+    ], ["func connectContextInner("], [("func connectContextInner(", "\nfunc LoadOrConnect(")])
     out[src] = dst
     return out
 
@@ -75,7 +92,7 @@ CFG = dict(
         "the model does nanosecond arithmetic on (weekday, ns of day); instants on month/year ends and leap days are in the generator",
         "util.FastRandN(n) in [0, n) and util.Rand.Int63n(n) in [0, n): the draws are inputs of the model, theorems quantify over all in-range draws; "
         "in the correspondence run the calls are redirected (derived overlay copies: only the patterns named in tools/propcfg/c19.py are rewritten) to a scripted source",
-        "the derived copies also redirect `time.Now().After(s.kill)`, `s.tick.Reset(w)` (wait) and `time.Sleep(v)` (connectContextInner) to an injected clock that "
+        "the derived copies redirect EVERY `time.Now()` of workhours.go / session.go / c2.go except the socket deadline computations `time.Now().Add(..)`, and `s.tick.Reset(w)` (wait), `time.Sleep(v)` (connectContextInner), to an injected clock that "
         "advances exactly by the durations the code asks to wait; real timers, scheduling and network latency are not modelled (a Connect is an instant)",
         "time.Ticker.Reset panics on a non-positive interval (observed once per run by the harness)",
         "time.Ticker under the `go 1.18` module line (asynctimerchan=1): channel buffer of one, Reset keeps a buffered tick -- modelled as `ticker`, "
